@@ -152,11 +152,61 @@ def bbox(g):
     return min(xs), min(ys), max(xs), max(ys)
 
 
+def gen_hole_around(rng):
+    """a polygon with one or two holes against a line / ring / polygon that lies in and around a hole: the hole ring is inside the
+    other geometry's envelope while the shell is outside it (disconnected linework of ONE polygon), at distance 0 (crossing the hole
+    ring, covering the hole) or at a small positive distance from the hole ring (inside the hole hugging it, or around it in the annulus)"""
+    W = rng.randint(4, 12) * 4; H = rng.randint(4, 12) * 4
+    cx, cy = 3 * W // 2, 3 * H // 2
+    hw, hh = W // 4, H // 4                      # half sizes of the hole
+    rings = [G.rect_ring(0, 0, 3 * W, 3 * H), G.rect_ring(cx - hw, cy - hh, cx + hw, cy + hh)[::-1]]
+    if rng.random() < 0.3:
+        rings.append(G.rect_ring(2, 2, 5, 5)[::-1])                 # a second, far hole
+    A = ('Polygon', rings)
+    kind = rng.choice(['through', 'through', 'through-rev', 'through-poly', 'through-poly', 'zigzag', 'diamond-ring', 'diamond-poly', 'c-shape', 'inside-cross', 'inside-poly', 'holed-poly'])
+    g1 = rng.randint(1, 3); g2 = rng.randint(1, 3)
+    if kind == 'through':          # from the centre of the hole out into the annulus (crosses the hole ring)
+        B = ('LineString', [(cx, cy), (cx - hw - g1, cy - hh - g2), (cx + hw + g1, cy - hh - g2), (cx + hw + g1, cy + hh + g2), (cx - hw - g1, cy + hh + g2)])
+    elif kind == 'through-rev':    # the same wrap, ending (not starting) in the hole; first vertex in the annulus
+        B = ('LineString', [(cx - hw - g1, cy + hh + g2), (cx + hw + g1, cy + hh + g2), (cx + hw + g1, cy - hh - g2), (cx - hw - g1, cy - hh - g2), (cx + rng.randint(-hw + 1, hw - 1), cy)])
+    elif kind == 'through-poly':   # an area whose first vertex is in the hole and whose boundary wraps round the hole
+        B = ('Polygon', [[(cx, cy), (cx - 3 * hw, cy + 2 * hh), (cx - 3 * hw, cy - 3 * hh), (cx + 3 * hw, cy - 3 * hh), (cx + 3 * hw, cy + 3 * hh), (cx - 2 * hw, cy + 3 * hh), (cx, cy)]])
+    elif kind == 'zigzag':         # starts in the hole, leaves it, wraps round it
+        B = ('LineString', [(cx + rng.randint(-hw + 1, hw - 1), cy), (cx, cy - hh - g1), (cx + hw + g2, cy - hh - g1), (cx + hw + g2, cy + hh + g1)])
+    elif kind == 'diamond-ring':   # a closed line around the hole in the annulus: hole ring inside its envelope, never touched
+        a = 2 * hw + g1; b = 2 * hh + g2
+        B = ('LineString', [(cx - a, cy), (cx, cy - b), (cx + a, cy), (cx, cy + b), (cx - a, cy)])
+    elif kind == 'diamond-poly':   # an area covering the hole (distance 0 through the hole ring vertices / the annulus)
+        a = 2 * hw + g1; b = 2 * hh + g2
+        B = ('Polygon', [[(cx - a, cy), (cx, cy - b), (cx + a, cy), (cx, cy + b), (cx - a, cy)]])
+    elif kind == 'c-shape':        # three sides round the hole
+        B = ('LineString', [(cx + hw + g1, cy - hh - g2), (cx - hw - g1, cy - hh - g2), (cx - hw - g1, cy + hh + g2), (cx + hw + g1, cy + hh + g2)])
+    elif kind == 'inside-cross':   # inside the hole, a cross hugging the ring (positive distance g/… from it) -- envelope inside the hole
+        B = ('MultiLineString', [('LineString', [(cx - hw + g1, cy), (cx + hw - g1, cy)]), ('LineString', [(cx, cy - hh + g2), (cx, cy + hh - g2)])])
+    elif kind == 'inside-poly':    # a polygon inside the hole
+        B = ('Polygon', [G.rect_ring(cx - hw + g1, cy - hh + g2, cx + hw - g1, cy + hh - g2)])
+    else:                          # a polygon with its own hole around A's hole: A's hole ring lies inside B's hole (positive distance)
+        o1 = 2 * hw + 2; o2 = 2 * hh + 2
+        B = ('Polygon', [G.rect_ring(cx - o1 - 2, cy - o2 - 2, cx + o1 + 2, cy + o2 + 2), G.rect_ring(cx - hw - g1, cy - hh - g2, cx + hw + g1, cy + hh + g2)[::-1]])
+    tag = 'hole-around-' + kind
+    r = rng.random()
+    if r < 0.15:
+        A = ('MultiPolygon', [A])
+    elif r < 0.3:
+        A = ('GeometryCollection', [A])
+    if rng.random() < 0.5:
+        A, B = B, A
+    return A, B, tag
+
+
 def gen_pair(rng, quick):
     """-> (tag, A, B) on the integer grid (before the coordinate transform)"""
     R = rng.choice([6, 20, 20, 60])
     k = rng.random()
-    if k < 0.22:
+    if rng.random() < 0.08:
+        A, B, tag = gen_hole_around(rng)
+        k = 2.0
+    elif k < 0.22:
         A = G.gen_geom(rng, R); B = G.gen_geom(rng, R); tag = 'random'
     elif k < 0.42:
         A = G.gen_geom(rng, R); B = G.derive(rng, A, R); tag = 'derived'
@@ -238,7 +288,9 @@ def gen_pair(rng, quick):
         mk = lambda cx, cy: (gen_big_line(rng, n, 12, cx, cy) if rng.random() < 0.6 else gen_big_poly(rng, n, 40 + n, cx, cy))
         A = mk(0, 0); B = mk(rng.choice([0, 30, 150, 400]), rng.choice([0, 20, 100]))
         tag = 'big'
-    if rng.random() < 0.18 and not G.is_empty(A):
+    if k == 2.0:
+        pass
+    elif rng.random() < 0.18 and not G.is_empty(A):
         A = with_empties(rng, A); tag += '+empty'
     if rng.random() < 0.18 and not G.is_empty(B):
         B = with_empties(rng, B); tag += '+empty'
@@ -347,8 +399,35 @@ def mk_case(idx, tag, tr, A, B, rng):
     return c
 
 
+def margin_of(c):
+    """a threshold offset far outside the rounding envelope (2^-20 of the largest |ordinate|): within(v + margin) must hold, within(v - margin) must not"""
+    return math.ldexp(max([abs(float(v)) for p in G.all_points(c.A) + G.all_points(c.B) for v in p] + [1e-300]), -20)
+
+
 def harness_line(c, skip=''):
-    return ('c%d %s %s %r %s' % (c.idx, wkb(c.A).hex(), wkb(c.B).hex(), c.frac, skip)).rstrip()
+    return ('c%d %s %s %r %r %s' % (c.idx, wkb(c.A).hex(), wkb(c.B).hex(), c.frac, margin_of(c), skip)).rstrip()
+
+
+def single_but_disconnected(g):
+    """getNumGeometries() == 1 although the linework has several pieces: a polygon with holes, or a one-element collection of such / of a multi"""
+    t, d = g
+    if t == 'Polygon':
+        return len(d) > 1
+    if t in ('Point', 'LineString'):
+        return False
+    if len(d) != 1:
+        return False
+    x = d[0]
+    if x[0] in ('Point', 'LineString'):
+        return False
+    if x[0] == 'Polygon':
+        return len(x[1]) > 1
+    return len([a for a in G.atoms(x) if not G.is_empty(a)]) > 1 or single_but_disconnected(x)
+
+
+def env_contains(g_outer, g_inner):
+    a = bbox(g_outer); b = bbox(g_inner)
+    return a[0] <= b[0] and a[1] <= b[1] and b[2] <= a[2] and b[3] <= a[3]
 
 
 PT_KEYS = ['np_ab', 'np_ba', 'pnp_ab', 'pnp_ba']
@@ -479,7 +558,7 @@ def evaluate(c):
                 elif zl and prep[0] in ('Polygon', 'MultiPolygon', 'LineString', 'MultiLineString') and all(b.startswith('the points are') for b in bad):
                     kn = 'C08-K3'                      # the points are on the geometries; the prepared distance they are compared with is the wrong one
             res.append(('nearest-' + key, 'known:' + kn if kn else 'viol', '%s=%s: %s' % (key, s, '; '.join(bad))))
-    # 5. within-distance: at v, prev(v), next(v), 0, 2v, +inf
+    # 5. within-distance: at v, prev(v), next(v), 0, 2v, +inf, v + margin, v - margin
     for wkey, vkey in [('w_ab', 'd_ab'), ('w_ba', 'd_ba'), ('pw_ab', 'p_ab'), ('pw_ba', 'p_ba')]:
         v = im.get(vkey)
         if v in ('EXC', None):
@@ -487,7 +566,7 @@ def evaluate(c):
         vv = unhex(v)
         if not math.isfinite(vv):
             continue
-        exp = '101' + ('1' if vv == 0 else '0') + '11'
+        exp = '101' + ('1' if vv == 0 else '0') + '11' + '10'
         got = im.get(wkey)
         if got == exp:
             res.append(('within', 'ok', ''))
@@ -496,11 +575,12 @@ def evaluate(c):
             pkind = 'plain' if wkey.startswith('w_') else ('basic' if prep[0] in ('Point', 'MultiPoint', 'GeometryCollection') else 'indexed')
             plain = im.get('d_ab' if wkey.endswith('_ab') else 'd_ba')
             a0, a1 = (c.A, c.B) if wkey.endswith('_ab') else (c.B, c.A)
-            ths = [vv, math.nextafter(vv, -math.inf), math.nextafter(vv, math.inf), 0.0, 2 * vv, math.inf]
+            mg = margin_of(c)
+            ths = [vv, math.nextafter(vv, -math.inf), math.nextafter(vv, math.inf), 0.0, 2 * vv, math.inf, vv + mg, vv - mg]
             kinds = set()
-            for j in range(6):
-                if got is None or len(got) != 6 or got[j] == exp[j]:
-                    if got is None or len(got) != 6: kinds.add('viol')
+            for j in range(8):
+                if got is None or len(got) != 8 or got[j] == exp[j]:
+                    if got is None or len(got) != 8: kinds.add('viol')
                     continue
                 t = ths[j]
                 if j == 1 and pkind == 'indexed' and vv == 0 and got[j] == '1':
@@ -508,15 +588,16 @@ def evaluate(c):
                 elif pkind == 'basic' and plain not in ('EXC', None) and ((j == 1 and got[j] == '1' and unhex(plain) < vv) or (j == 0 and got[j] == '0' and unhex(plain) > vv)) \
                         and accept(plain, D, tau) != 'bad':
                     kinds.add('known:C08-K6')          # BasicPreparedGeometry: distance from the rounded nearest points, within from DistanceOp
-                elif pkind == 'indexed' and zl:
-                    kinds.add('known:C08-K3')          # the prepared distance itself is wrong (too large) next to a zero-length line
+                elif pkind == 'indexed' and got[j] == '0' and single_but_disconnected(prep) and not env_contains(a1, a0) and D is not None \
+                        and (math.isinf(t) or (Fraction(t) + tau) ** 2 >= D):
+                    kinds.add('known:C08-K8')          # envelope heuristic of IndexedFacetDistance::isWithinDistance applied to disconnected linework
                 elif math.isfinite(t) and D is not None and (Fraction(vv) ** 2 != D or pkind == 'indexed' or not small_grid) and \
                         max(Fraction(t) - tau, 0) ** 2 <= D <= (Fraction(t) + tau) ** 2:
                     kinds.add('known:C08-K1')          # the returned distance is inexact (or the indexed heuristic measures to the envelope) and the threshold lies inside the rounding envelope
                 else:
                     kinds.add('viol')
             st = 'viol' if 'viol' in kinds else sorted(kinds)[0]
-            res.append(('within', st, '%s = %s at thresholds [v, prev v, next v, 0, 2v, inf] with v = %s = %r; expected %s; exact squared distance %s' % (wkey, got, vkey, vv, exp, D)))
+            res.append(('within', st, '%s = %s at thresholds [v, prev v, next v, 0, 2v, inf, v+m, v-m] (m = 2^-20 max|ordinate|) with v = %s = %r; expected %s; exact squared distance %s' % (wkey, got, vkey, vv, exp, D)))
     # 6. minimum clearance
     value('minclearance', 'mc_a', rat(m['MA'], K)); value('minclearance', 'mc_b', rat(m['MB'], K))
     # 7. Hausdorff / Frechet
@@ -677,7 +758,7 @@ def sections_tie(ctx, drv):
 
 def run(ctx):
     ctx.cov['rule'] = ('pairs of non-empty geometries (points, lines, polygons with holes, multi-geometries, collections with EMPTY elements) in '
-                       'random / derived-touching / far / containment (interior, hole, annulus) / collinear-parallel / T-junction / near-miss / '
+                       'random / derived-touching / far / containment (interior, hole, annulus) / in-and-around-a-hole / collinear-parallel / T-junction / near-miss / '
                        'many-component and large (index pruning) configurations, on the integer grid, after an exact dyadic similarity (full mantissas, contacts stay exact) '
                        'or after an inexact affine map at several magnitudes; every entry point evaluated on each pair; non-trivial = at least one '
                        'segment on one side and the pair is not two single points; distinct by the WKB of the pair')
@@ -747,7 +828,7 @@ def run(ctx):
                         ctx.notes.setdefault('known_examples', []).append('%s: A=%s B=%s : %s' % (kid, G.to_wkt(c.A)[:300], G.to_wkt(c.B)[:300], det[:300]))
                 else:
                     st = 'viol'      # the finding is not (or no longer: status fixed) registered as known: it is a violation
-                    det = 'REGRESSION of the fixed finding %s: %s' % (kid, det)
+                    det = ('REGRESSION of the fixed finding %s: %s' if any(k['id'] == kid for k in ctx.known) else 'unregistered finding class %s: %s') % (kid, det)
             if st == 'viol':
                 d['viol'] += 1
                 nviol += 1
@@ -767,7 +848,7 @@ def run(ctx):
     for c in cases[:4]:
         ctx.sample('%s/%s A=%s B=%s' % (c.tag, c.tr, G.to_wkt(c.A)[:150], G.to_wkt(c.B)[:150]))
     # generator self-check: every configuration class and both zero / positive distances must have been drawn
-    for need in ['random', 'derived', 'far', 'contain', 'collinear', 'parallel', 'tjunction', 'nearmiss', 'many', 'big', '+empty']:
+    for need in ['random', 'derived', 'far', 'contain', 'collinear', 'parallel', 'tjunction', 'nearmiss', 'hole-around', 'many', 'big', '+empty']:
         if not any(need in t for t in dist['config']):
             ctx.broken.append(dict(kind='generator', name='distribution', detail='no %s configuration generated' % need))
     if dist['zero_distance'] == 0 or dist['positive_distance'] == 0:
